@@ -340,7 +340,7 @@ class MultiStream(Stream):
                     return value * total if flow else value
             else:
                 property_cache.clear()
-            self._property_cache_key = (literal, [i.copy() for i in composition_key])
+            self._property_cache_key[:] = (literal, [i.copy() for i in composition_key])
             if nophase:
                 calculate = getattr(self.mixture, name)
                 self._property_cache[name] = value = calculate(
@@ -382,7 +382,7 @@ class MultiStream(Stream):
             stream._thermo = self._thermo
             stream._property_cache = {}
             stream.characterization_factors = {}
-            stream._property_cache_key = None, None
+            stream._property_cache_key = [None, None]
             streams[phase] = stream
         return stream
     
